@@ -1291,3 +1291,55 @@ func funcsCalledFrom(p *Program, pkg *packages.Package, fd *ast.FuncDecl) []*ast
 	sort.Slice(out, func(i, j int) bool { return out[i].Pos() < out[j].Pos() })
 	return out
 }
+
+// declClosure returns fd and the declarations of the same package it
+// reaches through static calls (a codec split into per-message helpers is
+// still one codec). The order is deterministic: fd first, then discovery
+// order.
+func declClosure(pkg *packages.Package, fd *ast.FuncDecl) []*ast.FuncDecl {
+	byObj := map[*types.Func]*ast.FuncDecl{}
+	for _, f := range pkg.Syntax {
+		for _, d := range f.Decls {
+			if x, ok := d.(*ast.FuncDecl); ok && x.Body != nil {
+				if o, ok := pkg.TypesInfo.Defs[x.Name].(*types.Func); ok {
+					byObj[o] = x
+				}
+			}
+		}
+	}
+	out := []*ast.FuncDecl{fd}
+	seen := map[*ast.FuncDecl]bool{fd: true}
+	for i := 0; i < len(out) && len(out) < 64; i++ {
+		ast.Inspect(out[i].Body, func(n ast.Node) bool {
+			if call, ok := n.(*ast.CallExpr); ok {
+				if o := calleeObj(pkg, call); o != nil {
+					if d := byObj[o.Origin()]; d != nil && !seen[d] {
+						seen[d] = true
+						out = append(out, d)
+					}
+				}
+			}
+			return true
+		})
+	}
+	return out
+}
+
+// fieldsUsedDeep is fieldsUsed over declClosure(fd).
+func fieldsUsedDeep(pkg *packages.Package, fd *ast.FuncDecl) (reads, writes map[*types.Var]token.Pos) {
+	reads, writes = map[*types.Var]token.Pos{}, map[*types.Var]token.Pos{}
+	for _, d := range declClosure(pkg, fd) {
+		rd, wr := fieldsUsed(pkg, d)
+		for k, v := range rd {
+			if _, ok := reads[k]; !ok {
+				reads[k] = v
+			}
+		}
+		for k, v := range wr {
+			if _, ok := writes[k]; !ok {
+				writes[k] = v
+			}
+		}
+	}
+	return
+}
